@@ -11,12 +11,25 @@ use std::fmt::Debug;
 
 trait SN: MaybeNan + Clone + Debug + Send + Sync + 'static {
     const NAME: &'static str;
+    /// the element type of "the same data with the missing values deleted": N64 for floats, T for Option<T>.
+    /// The plain reference runs on THIS type, not on the crate's not-NaN wrapper, so a defect in the
+    /// wrapper's arithmetic or conversions cannot cancel out of the comparison.
+    type Plain: Ord + Clone + Debug + num_traits::NumOps + num_traits::FromPrimitive + num_traits::ToPrimitive;
+    fn plain(&self) -> Self::Plain;
+    fn from_plain(p: Self::Plain) -> Self;
     fn mk(rank: usize) -> Self;
     fn missing() -> Self;
     fn key(&self) -> i64;
 }
 impl SN for f64 {
     const NAME: &'static str = "f64";
+    type Plain = noisy_float::types::N64;
+    fn plain(&self) -> Self::Plain {
+        n64(*self)
+    }
+    fn from_plain(p: Self::Plain) -> f64 {
+        p.raw()
+    }
     fn mk(r: usize) -> f64 {
         [-2.5, -0.0, 0.75, 3.0, 3.5, 1e9, 2e9][r]
     }
@@ -33,6 +46,13 @@ impl SN for f64 {
 }
 impl SN for f32 {
     const NAME: &'static str = "f32";
+    type Plain = noisy_float::types::N32;
+    fn plain(&self) -> Self::Plain {
+        noisy_float::types::n32(*self)
+    }
+    fn from_plain(p: Self::Plain) -> f32 {
+        p.raw()
+    }
     fn mk(r: usize) -> f32 {
         [-2.5, -0.0, 0.75, 3.0, 3.5, 1e9, 2e9][r]
     }
@@ -49,6 +69,13 @@ impl SN for f32 {
 }
 impl SN for Option<noisy_float::types::N64> {
     const NAME: &'static str = "Option<N64>";
+    type Plain = noisy_float::types::N64;
+    fn plain(&self) -> Self::Plain {
+        self.unwrap()
+    }
+    fn from_plain(p: Self::Plain) -> Self {
+        Some(p)
+    }
     fn mk(r: usize) -> Option<noisy_float::types::N64> {
         Some(n64([-2.5, -0.0, 0.75, 3.0, 3.5, 1e9, 2e9][r]))
     }
@@ -64,6 +91,13 @@ impl SN for Option<noisy_float::types::N64> {
 }
 impl SN for Option<i32> {
     const NAME: &'static str = "Option<i32>";
+    type Plain = i32;
+    fn plain(&self) -> i32 {
+        self.unwrap()
+    }
+    fn from_plain(p: i32) -> Self {
+        Some(p)
+    }
     fn mk(r: usize) -> Option<i32> {
         Some([-7, 0, 3, 10, 11, 12, 100][r])
     }
@@ -206,18 +240,15 @@ where
 }
 
 /// plain quantile of the filtered data with the real plain routine (differential reference)
-fn plain_ref<A: SN, I: Interpolate<A::NotNan>>(kept: &[A], q: f64, i: &I) -> Result<A, String>
-where
-    A::NotNan: Clone + Ord,
-{
+fn plain_ref<A: SN, I: Interpolate<A::Plain>>(kept: &[A], q: f64, i: &I) -> Result<A, String> {
     if kept.is_empty() {
         return Ok(A::missing());
     }
-    let mut v: Array1<A::NotNan> = Array1::from(kept.iter().map(|x| nn(x)).collect::<Vec<_>>());
-    guarded(|| A::from_not_nan(v.quantile_mut(n64(q), i).unwrap()))
+    let mut v: Array1<A::Plain> = Array1::from(kept.iter().map(|x| x.plain()).collect::<Vec<_>>());
+    guarded(|| A::from_plain(v.quantile_mut(n64(q), i).unwrap()))
 }
 
-fn quantile_case<A: SN, I: Interpolate<A::NotNan>>(shape: &[usize], axis: usize, layout: &Layout, logical: &[A], q: f64, i: &I, sname: &str, mode: &PivotMode, lx: &mut Local)
+fn quantile_case<A: SN, I: Interpolate<A::NotNan> + Interpolate<A::Plain>>(shape: &[usize], axis: usize, layout: &Layout, logical: &[A], q: f64, i: &I, sname: &str, mode: &PivotMode, lx: &mut Local)
 where
     A::NotNan: Clone + Ord,
 {
@@ -379,7 +410,7 @@ where
 fn main() {
     let mut rep = Report::new("C14");
     rep.rule = "case = (element type, length, missing-value mask, weak-order pattern of the remaining elements) in 1-D, (type, shape, layout, mask/content family) in n-D; non-trivial = at least one missing and one non-missing element".into();
-    rep.assume("the reference for quantile_axis_skipnan_mut is the crate's own plain quantile_mut applied to the filtered lane (the property is literally this equivalence; the plain routine itself is decided by C01); all other entry points are compared with an independent filter-then-scan");
+    rep.assume("the reference for quantile_axis_skipnan_mut is the crate's own plain quantile_mut applied to the filtered lane in its plain element type (N64 / N32 for floats, T for Option<T> - not the not-NaN wrapper); the property is literally this equivalence and the plain routine itself is decided by C01; all other entry points are compared with an independent filter-then-scan");
     let nmax = rep.cfg.pick(5, 6);
     let extra_q: Vec<f64> = q_grid(3).into_iter().step_by(3).collect();
     let mut cases: Vec<Case1> = Vec::new();
